@@ -11,9 +11,10 @@ pub mod c04;
 pub mod c07;
 pub mod c08;
 pub mod c09;
+pub mod c15;
 pub mod c16;
 
-pub const ALL: &[&str] = &["C02", "C03", "C04", "C07", "C08", "C09", "C16"];
+pub const ALL: &[&str] = &["C02", "C03", "C04", "C07", "C08", "C09", "C15", "C16"];
 
 pub fn run(ctx: &Ctx) -> i32 {
     match ctx.prop.as_str() {
@@ -23,6 +24,7 @@ pub fn run(ctx: &Ctx) -> i32 {
         "C07" => c07::run(ctx),
         "C08" => c08::run(ctx),
         "C09" => c09::run(ctx),
+        "C15" => c15::run(ctx),
         "C16" => c16::run(ctx),
         other => {
             eprintln!("unknown property {}", other);
@@ -39,6 +41,7 @@ pub fn replay_case(prop: &str, suite: &str, case: &Value) -> Option<Verdict> {
         "C07" => c07::replay(suite, case),
         "C08" => c08::replay(suite, case),
         "C09" => c09::replay(suite, case),
+        "C15" => c15::replay(suite, case),
         "C16" => c16::replay(suite, case),
         _ => None,
     }
